@@ -16,3 +16,58 @@ BASE_TYPES = {
     "A_FLOAT32": ("Float", 32, "ASCII"), "A_FLOAT64": ("Float", 64, "ASCII"),
     "A_ASCIISTRING": ("StringType", None, "ASCII"), "A_UNICODE2STRING": ("StringType", None, "UTF8"),
 }
+
+# ---- value flow: public model field <- (element that closes the record part, source element, kind of source)
+# kinds: "text" element text, "num" number parsed from element text, "attr:<NAME>" attribute of the source element.
+# Transcribed from the FIBEX layout the property statement describes: a FRAME carries SHORT-NAME and a
+# MANUFACTURER-EXTENSION with APPLICATION_ID / CONTEXT_ID / MESSAGE_TYPE / MESSAGE_INFO; a PDU carries DESC;
+# PDU-INSTANCE / SIGNAL-INSTANCE carry SEQUENCE-NUMBER and PDU-REF / SIGNAL-REF (ID-REF); a SIGNAL carries
+# CODING-REF (ID-REF); a CODING carries CODED-TYPE with BASE-DATA-TYPE.
+MODEL_RECORDS = ("fibex::PduMetadata", "fibex::FrameMetadata", "fibex::FrameMetadataIdentification")
+MODEL = {
+    ("fibex::FrameMetadata", "short_name"): ("FRAME", "SHORT-NAME", "text"),
+    ("fibex::FrameMetadata", "application_id"): ("MANUFACTURER-EXTENSION", "APPLICATION_ID", "text"),
+    ("fibex::FrameMetadata", "context_id"): ("MANUFACTURER-EXTENSION", "CONTEXT_ID", "text"),
+    ("fibex::FrameMetadata", "message_type"): ("MANUFACTURER-EXTENSION", "MESSAGE_TYPE", "text"),
+    ("fibex::FrameMetadata", "message_info"): ("MANUFACTURER-EXTENSION", "MESSAGE_INFO", "text"),
+    ("fibex::PduMetadata", "description"): ("PDU", "DESC", "text"),
+    ("fibex::FrameMetadataIdentification", "context_id"): ("MANUFACTURER-EXTENSION", "CONTEXT_ID", "text"),
+    ("fibex::FrameMetadataIdentification", "app_id"): ("MANUFACTURER-EXTENSION", "APPLICATION_ID", "text"),
+    ("fibex::FrameMetadataIdentification", "frame_id"): ("FRAME", "FRAME", "attr:ID"),
+}
+KEYS = {
+    "pdu_map_key": ("PDU", "PDU", "attr:ID"),
+    "frame_map_key": ("FRAME", "FRAME", "attr:ID"),
+    "pdu_lookup_key": ("PDU-INSTANCE", "PDU-REF", "attr:ID-REF"),
+    "signals_key": ("SIGNAL", "SIGNAL", "attr:ID"),
+    "signals_val": ("SIGNAL", "CODING-REF", "attr:ID-REF"),
+    "codings_key": ("CODING", "CODING", "attr:ID"),
+    "codings_val": ("CODING", "CODED-TYPE", "attr:BASE-DATA-TYPE"),
+    "signal_ref": ("SIGNAL-INSTANCE", "SIGNAL-REF", "attr:ID-REF"),
+    "signal_seq": ("SIGNAL-INSTANCE", "SEQUENCE-NUMBER", "num"),
+    "pdu_seq": ("PDU-INSTANCE", "SEQUENCE-NUMBER", "num"),
+}
+
+# ---- nesting of the elements the reader knows (direct children, FIBEX 3.x layout as used by DLT non-verbose files).
+# Used only to decide which writers of a shared scratch slot can occur between the start and the end of an element.
+CHILDREN = {
+    "FRAME": ("SHORT-NAME", "DESC", "BYTE-LENGTH", "FRAME-TYPE", "PDU-INSTANCE", "MANUFACTURER-EXTENSION"),
+    "PDU-INSTANCE": ("PDU-REF", "SEQUENCE-NUMBER"),
+    "MANUFACTURER-EXTENSION": ("APPLICATION_ID", "CONTEXT_ID", "MESSAGE_TYPE", "MESSAGE_INFO"),
+    "PDU": ("SHORT-NAME", "DESC", "BYTE-LENGTH", "PDU-TYPE", "SIGNAL-INSTANCE"),
+    "SIGNAL-INSTANCE": ("SEQUENCE-NUMBER", "SIGNAL-REF"),
+    "SIGNAL": ("SHORT-NAME", "DESC", "CODING-REF"),
+    "CODING": ("SHORT-NAME", "DESC", "CODED-TYPE"),
+}
+
+
+def inside(tag):
+    """tag and everything that can occur below it."""
+    out, todo = {tag}, [tag]
+    while todo:
+        t = todo.pop()
+        for c in CHILDREN.get(t, ()):
+            if c not in out:
+                out.add(c)
+                todo.append(c)
+    return out
